@@ -31,6 +31,10 @@ type DuringCase struct {
 
 func GenDuring(t *rapid.T) *DuringCase {
 	base := Gen(t)
+	for i := range base.Edges {
+		// upcasters shared by concurrent replays must not write to their input
+		base.Edges[i].Scribble = false
+	}
 	c := &DuringCase{Edges: base.Edges, Perm: base.Perm, Events: base.Events}
 	for i := range c.Edges {
 		c.Edges[i].Fail = false
